@@ -9,6 +9,11 @@ import CLModel.Proofs.C12Term
 import CLModel.Proofs.C11Witness
 import CLModel.Proofs.C12RSep
 import CLModel.Proofs.C12RExample
+import CLModel.Proofs.C12MozNorm
+import CLModel.Proofs.C12BExample
+import CLModel.Proofs.C12AndroidGen
+import CLModel.Proofs.C12AClass
+import CLModel.Proofs.C12MozLaws
 namespace C12
 open Rx PM
 
@@ -437,5 +442,380 @@ example : matchOutcome "a/**/x/*.f" [] none "a/y/x/x/q.f" =
 /-- a final `**` takes any rest, or nothing -/
 example : matchOutcome "a/**" [] none "a/b/c" = .groups [(T "s1", some (T "b/c"))] ∧
     matchOutcome "a/**" [] none "a/" = .groups [(T "s1", none)] := by decide +kernel
+
+
+
+
+/-! ### the Android round trip, in general (round 4) -/
+
+/-- **General Android round trip** (locale -> Android resource qualifier -> locale), for EVERY locale made of subtags
+    joined by "-" that satisfies `C12A.AndroidOK`: no subtag contains "-" or "+", none ends with a legacy code `iw`/`in`/`ji`
+    (`C12A.NoLegacyEnd`), none after the first looks like a region qualifier `rXX` (`C12A.NotRegionQualifier`), and a text that
+    the code takes for language-REGION (it starts like `ll-XX` / `lll-XX`: `C12A.regionShape`) has exactly two subtags.  That
+    covers every `language[-Script][-REGION][-variant…]` tag outside the limit families below, in particular all locales of
+    `android_roundtrip_shipped` / `_curated`.  The Android form `AndroidLocale._get_android_locale` computes is mapped back
+    to the same locale by the conversion in `Matcher.match`.
+    Proof: `re.sub` with a callback is a left-to-right rewriting by a local rule (`C12A.subWithE_rewrite`, on top of
+    `C12S.finditer_scan`); each of the three regexes is analysed at an arbitrary position (`fwd_hit`, `back_hit`, `r_hit`,
+    `region_hit`); the legacy substitutions act on the last two characters of every subtag (`rewrite_join`). -/
+theorem android_roundtrip_general (ts : List Text) (h : C12A.AndroidOK ts) :
+    ∃ a, toAndroid (C12A.joinWith 45 ts) = .ok a ∧ toStandard a = .ok (C12A.joinWith 45 ts) :=
+  C12A.android_roundtrip_general ts h
+
+/-- Every hypothesis of `android_roundtrip_general` is forced: a subtag ending in a legacy code ("cin", "zh-Latn-pinyin"), a
+    later subtag of the form rXX ("xx-Latn-rDE"), more than two subtags behind a language-REGION start ("en-US-x-foo"), a "+"
+    inside a subtag ("a+b-c") do not come back. -/
+theorem android_general_witness :
+    androidRoundTrip (T "cin") = false ∧ androidRoundTrip (T "zh-Latn-pinyin") = false ∧
+    androidRoundTrip (T "xx-Latn-rDE") = false ∧ androidRoundTrip (T "en-US-x-foo") = false ∧
+    androidRoundTrip (T "a+b-c") = false := by decide +kernel
+
+/-- non-vacuity: "zh-Hant-TW" (the `b+` form), "he-IL" (legacy code and region) and "ast" satisfy `C12A.AndroidOK` -/
+example : C12A.AndroidOK [T "zh", T "Hant", T "TW"] ∧ C12A.AndroidOK [T "he", T "IL"] ∧ C12A.AndroidOK [T "ast"] ∧
+    C12A.joinWith 45 [T "zh", T "Hant", T "TW"] = T "zh-Hant-TW" := by
+  refine ⟨⟨by simp, ?_, ?_, ?_, ?_⟩, ⟨by simp, ?_, ?_, ?_, ?_⟩, ⟨by simp, ?_, ?_, ?_, ?_⟩, by decide⟩
+  · intro t ht
+    simp only [List.mem_cons, List.not_mem_nil, or_false] at ht
+    rcases ht with rfl | rfl | rfl <;> decide
+  · intro t ht
+    simp only [List.mem_cons, List.not_mem_nil, or_false] at ht
+    rcases ht with rfl | rfl | rfl <;> (unfold C12A.NoLegacyEnd; decide)
+  · intro t ht
+    simp only [List.tail_cons, List.mem_cons, List.not_mem_nil, or_false] at ht
+    rcases ht with rfl | rfl <;> (intro a b q e; simp [T] at e)
+  · intro hr; exact absurd hr (by decide)
+  · intro t ht
+    simp only [List.mem_cons, List.not_mem_nil, or_false] at ht
+    rcases ht with rfl | rfl <;> decide
+  · intro t ht
+    simp only [List.mem_cons, List.not_mem_nil, or_false] at ht
+    rcases ht with rfl | rfl <;> (unfold C12A.NoLegacyEnd; decide)
+  · intro t ht
+    simp only [List.tail_cons, List.mem_singleton] at ht
+    subst ht; intro a b q e; simp [T] at e
+  · intro _; rfl
+  · intro t ht
+    simp only [List.mem_singleton] at ht
+    subst ht; decide
+  · intro t ht
+    simp only [List.mem_singleton] at ht
+    subst ht; unfold C12A.NoLegacyEnd; decide
+  · intro t ht; simp at ht
+  · intro hr; exact absurd hr (by decide)
+
+
+/-! ### `{android_locale}` inside the proved matching class (round 4) -/
+
+/-- `Matcher("values-{android_locale}/*.xml", {"locale": "sr-Latn"})` written out -/
+def androidMatcher : Matcher :=
+  { pattern := { nodes := [.lit (T "values-"), .android false, .lit (T "/"), .star 1, .lit (T ".xml")],
+                 root := none, prefixLen := 3 },
+    env := [(localeName, .pat { nodes := [.lit (T "sr-Latn")], root := none, prefixLen := 1 })] }
+
+/-- **A matcher with `{android_locale}` reports the locale it was bound to** (composition of the matching theorems with the
+    general Android round trip).  Matcher of the class `C12AC.InClassA` (literals, `*`, `**/`, final `**`, fully bound variables
+    and their repetitions, `{android_locale}` and its repetitions), whose environment binds `locale` to a value that expands
+    to a locale `C12A.joinWith 45 ts` satisfying `C12A.AndroidOK`, and whose pattern has no `{locale}` group of its own.  Then
+    the path obtained by filling the wildcards, expanding the variables and putting the Android form in place of
+    `{android_locale}` (`C12AC.fillA`, well separated) is matched, the group `android_locale` is that Android form and the
+    entry `locale` that `match` adds is exactly the bound locale. -/
+theorem android_match_reports_locale_partial {m : Matcher} {vs : Nat → Text} {re : Re} {names : List Text} {rt : Text}
+    {v : Val} {ts : List Text}
+    (henv : EnvOK m.env) (hcls : C12AC.InClassA m.env [] m.pattern.nodes) (hre : m.regexOf = .ok (re, names))
+    (hroot : rootOf (expandVal (fuelFor m.env)) m.pattern m.env = .ok rt)
+    (hsep : C12AC.WellSepA vs m.env m.pattern.nodes)
+    (hand : Node.android false ∈ m.pattern.nodes) (hloc : localeName ∉ names)
+    (hlv : m.env.lookup localeName = some v)
+    (hexp : expandVal (fuelFor m.env) v (derase m.env androidName) false = .ok (C12A.joinWith 45 ts))
+    (hok : C12A.AndroidOK ts) :
+    ∃ d al, toAndroid (C12A.joinWith 45 ts) = .ok al ∧
+      m.match (rt ++ C12AC.fillA vs m.env m.pattern.nodes) = .ok (some d) ∧
+      d.lookup androidName = some (some al) ∧ d.lookup localeName = some (some (C12A.joinWith 45 ts)) := by
+  obtain ⟨al, hto, hback⟩ := C12A.android_roundtrip_general ts hok
+  have hget : getAndroidLocale (expandVal (fuelFor m.env)) m.env = .ok (some al) := by
+    simp only [getAndroidLocale, hlv, hexp, hto, bind, Except.bind, pure, Except.pure]
+  have hat : C12AC.androidText m.env = al := by simp [C12AC.androidText, hget]
+  obtain ⟨g, hm, hga, hg⟩ := C12AC.match_fillA (l := C12A.joinWith 45 ts) henv hcls hre hroot hsep hand hloc (by rw [hat]; exact hback)
+  obtain ⟨hamem, _⟩ := hg _ hand androidName (by simp [C12AC.nameOfA])
+  refine ⟨_, al, hto, hm, ?_, ?_⟩
+  · apply lookup_append_left
+    rw [lookup_map_mem (fun nm => g nm) androidName names hamem, hga, hat]
+  · rw [C12AC.lookup_append_of_none _ _ _ (C12AC.lookup_map_none (fun nm => g nm) localeName names hloc)]
+    simp [List.lookup]
+
+/-- non-vacuity of `android_match_reports_locale_partial`: `androidMatcher` (= `Matcher("values-{android_locale}/*.xml",
+    {"locale": "sr-Latn"})`) with `*` = "strings" satisfies the hypotheses; the filled path is "values-b+sr+Latn/strings.xml" and
+    the model evaluates to the dictionary the theorem describes -/
+example : matcherOf "values-{android_locale}/*.xml" [("locale", "sr-Latn")] none = .ok androidMatcher ∧
+    (∃ d al, toAndroid (T "sr-Latn") = .ok al ∧
+      androidMatcher.match (T "values-b+sr+Latn/strings.xml") = .ok (some d) ∧
+      d.lookup androidName = some (some al) ∧ d.lookup localeName = some (some (T "sr-Latn"))) ∧
+    matchOutcome "values-{android_locale}/*.xml" [("locale", "sr-Latn")] none "values-b+sr+Latn/strings.xml" =
+      .groups [(androidName, some (T "b+sr+Latn")), (T "s1", some (T "strings")), (localeName, some (T "sr-Latn"))] := by
+  refine ⟨C11R.matcherOf_is (by decide +kernel), ?_, by decide +kernel⟩
+  let vs : Nat → Text := fun k => if k = 1 then T "strings" else []
+  obtain ⟨re, names, hre, hloc⟩ := C12AC.regexOf_noLocale_of (m := androidMatcher) (by decide +kernel)
+  have hget : getAndroidLocale (expandVal (fuelFor androidMatcher.env)) androidMatcher.env = .ok (some (T "b+sr+Latn")) :=
+    C12AC.getAndroid_ok_of (by decide +kernel)
+  have hat : C12AC.androidText androidMatcher.env = T "b+sr+Latn" := by simp [C12AC.androidText, hget]
+  have henv : EnvOK androidMatcher.env := by
+    intro k v hm
+    simp only [androidMatcher, List.mem_singleton, Prod.mk.injEq] at hm
+    obtain ⟨_, rfl⟩ := hm
+    exact ⟨rfl, fun n hn => by simp only [List.mem_singleton] at hn; subst hn; trivial⟩
+  have hcls : C12AC.InClassA androidMatcher.env [] androidMatcher.pattern.nodes := ⟨⟨_, hget⟩, trivial⟩
+  have hsep : C12AC.WellSepA vs androidMatcher.env androidMatcher.pattern.nodes := by
+    show C11R.PSep _
+    simp only [androidMatcher, List.map_cons, List.map_nil, C12AC.pieceOfA, C12B.pieceOfB, C11R.pieceOf]
+    refine ⟨?_, ?_, trivial⟩
+    · decide
+    · exact C11R.noLaterHit_of_first (by decide) (by decide)
+  have hok : C12A.AndroidOK [T "sr", T "Latn"] := by
+    refine ⟨by simp, ?_, ?_, ?_, ?_⟩
+    · intro t ht
+      simp only [List.mem_cons, List.not_mem_nil, or_false] at ht
+      rcases ht with rfl | rfl <;> decide
+    · intro t ht
+      simp only [List.mem_cons, List.not_mem_nil, or_false] at ht
+      rcases ht with rfl | rfl <;> (unfold C12A.NoLegacyEnd; decide)
+    · intro t ht
+      simp only [List.tail_cons, List.mem_singleton] at ht
+      subst ht; intro a b q e; simp [T] at e
+    · intro hr; exact absurd hr (by decide)
+  have hfill : [] ++ C12AC.fillA vs androidMatcher.env androidMatcher.pattern.nodes = T "values-b+sr+Latn/strings.xml" := by
+    simp only [C12AC.fillA, androidMatcher, List.map_cons, List.map_nil, C12AC.pieceOfA, C12B.pieceOfB, C11R.pieceOf, hat]
+    decide +kernel
+  have h := android_match_reports_locale_partial (vs := vs) (ts := [T "sr", T "Latn"]) henv hcls hre rfl hsep (by simp [androidMatcher])
+    hloc (v := .pat { nodes := [.lit (T "sr-Latn")], root := none, prefixLen := 1 }) (by simp [androidMatcher, List.lookup])
+    (okEq_spec (by decide +kernel)) hok
+  rw [hfill] at h
+  exact h
+
+/-! ### repeated variables (back-references) in the wildcard theorems (round 4) -/
+
+/-- **expand -> match with wildcards and REPEATED variables.**  As `expand_match_star_partial`, for the larger class
+    `C12B.InClassB`: a fully bound variable may occur again (`{l}a/{l}b/*.ftl`, `l10n/{locale}/x/{locale}.ftl`); the parser
+    turns the later occurrences into back-references `(?P=name)`, which the engine treats exactly like the literal text of
+    the group as long as that group has been captured (`C12B.sim`, `C12B.m_backref`).  In the separation hypothesis a
+    repeated variable counts as the literal text of its expansion (`C12B.WellSepB`).  The dictionary reports the filled
+    value for every wildcard and the expansion for every variable, whichever occurrence is asked for.
+    (`C12B.fillableB_of_fillable`: the class of `expand_match_star_partial` is included.)
+    Still excluded (hence `_partial`): `{android_locale}`, variables left unbound, a variable repeated INSIDE an environment
+    value (`EnvOK`), two double stars (forced). -/
+theorem expand_match_backref_partial {m : Matcher} {vs : Nat → Text} {names : List Text} {rt : Text}
+    (h : C12B.FillableB vs m names rt) :
+    ∃ d, m.match (rt ++ C11R.fillN vs m.env m.pattern.nodes) = .ok (some d) ∧ d.map (·.1) = names ∧
+      (∀ n, Node.star n ∈ m.pattern.nodes → d.lookup (sname n) = some (some (vs n))) ∧
+      (∀ n sfx, Node.starstar n sfx ∈ m.pattern.nodes →
+        d.lookup (sname n) = some (if vs n = [] then none else some (vs n))) ∧
+      (∀ name rep t, Node.var name rep ∈ m.pattern.nodes →
+        expandNode (expandVal (fuelFor m.env)) (.var name rep) m.env true = .ok t →
+        d.lookup name = some (some t)) := by
+  obtain ⟨re, hre⟩ := h.compiles
+  obtain ⟨g, hm, hg⟩ := C12B.match_fillB h.env h.cls hre h.noAndroidGroup h.root h.sep
+  refine ⟨_, hm, by simp [List.map_map, Function.comp_def], ?_, ?_, ?_⟩
+  · intro n hn
+    obtain ⟨h1, h2⟩ := hg _ hn (sname n) (by simp [C11R.nameOfN])
+    rw [lookup_map_mem (fun nm => g nm) (sname n) names h1, h2]; rfl
+  · intro n sfx hn
+    obtain ⟨h1, h2⟩ := hg _ hn (sname n) (by simp [C11R.nameOfN])
+    rw [lookup_map_mem (fun nm => g nm) (sname n) names h1, h2]; rfl
+  · intro name rep t hn ht
+    obtain ⟨h1, h2⟩ := hg _ hn name (by simp [C11R.nameOfN])
+    rw [lookup_map_mem (fun nm => g nm) name names h1, h2]
+    simp only [C11R.valOf, C11R.varText, ht]
+
+/-- ... and the filled path is the expansion of the pattern once wildcards and variables are bound (as
+    `filled_path_is_expansion_partial`, with repeated variables) -/
+theorem filled_path_is_expansion_backref_partial {m : Matcher} {vs : Nat → Text} {names : List Text} {rt : Text}
+    {d : GroupDict} (h : C12B.FillableB vs m names rt) (he : C11R.Expandable m)
+    (hd : m.match (rt ++ C11R.fillN vs m.env m.pattern.nodes) = .ok (some d)) :
+    expandTop m.pattern (subEnv d m.env) = .ok (rt ++ C11R.fillN vs m.env m.pattern.nodes) := by
+  obtain ⟨re, hre⟩ := h.compiles
+  have hs := C12B.sub_fillB h.env h.cls hre h.noAndroidGroup h.root h.sep
+    (C12B.inClassB_expOK h.cls (by intro nm hn; cases hn)) (C11R.goodEnv_of h.env he.noAndroid) h.root he.keys
+    he.noWildKey (fun _ h => h)
+  rw [PM.sub_of_match hd] at hs
+  cases hx : expandTop m.pattern (subEnv d m.env) with
+  | error e => simp [hx, Except.map] at hs
+  | ok t => simpa [hx, Except.map] using hs
+
+/-- **A fully bound pattern (no wildcards, variables may repeat) expands to a path that the same matcher matches**:
+    `matches_own_expansion_partial` without its `NoRep` restriction, for patterns without `{android_locale}`:
+    `str(matcher)` is the filled path and `match` of it returns a dictionary. -/
+theorem matches_own_expansion_backref_partial {m : Matcher} {vs : Nat → Text} {names : List Text} {rt : Text}
+    (henv : EnvOK m.env) (hcls : C12B.InClassB m.env [] m.pattern.nodes)
+    (hnw : ∀ n ∈ m.pattern.nodes, (∀ k, n ≠ .star k) ∧ (∀ k sfx, n ≠ .starstar k sfx))
+    (hre : ∃ re, m.regexOf = .ok (re, names)) (hna : androidName ∉ names)
+    (hroot : rootOf (expandVal (fuelFor m.env)) m.pattern m.env = .ok rt) :
+    m.str = .ok (rt ++ C11R.fillN vs m.env m.pattern.nodes) ∧
+    ∃ d, m.match (rt ++ C11R.fillN vs m.env m.pattern.nodes) = .ok (some d) := by
+  have hF : C12B.FillableB vs m names rt := ⟨henv, hcls, hre, hna, hroot, C12B.wellSepB_nowild hnw⟩
+  obtain ⟨d, hd, _⟩ := expand_match_backref_partial hF
+  refine ⟨?_, d, hd⟩
+  have hexp := C12B.inClassB_expOK hcls (by intro nm hn; cases hn)
+  have hnode : ∀ n ∈ m.pattern.nodes, expandNode (expandVal (fuelFor m.env)) n m.env true =
+      .ok ((C11R.pieceOf vs m.env n).text) := by
+    intro n hn
+    have hc := hexp n hn
+    cases n with
+    | lit t => rfl
+    | star k => exact absurd rfl ((hnw _ hn).1 k)
+    | starstar k sfx => exact absurd rfl ((hnw _ hn).2 k sfx)
+    | var name rep =>
+      obtain ⟨t, ht⟩ := hc
+      rw [ht]
+      simp only [C11R.pieceOf, C11R.Piece.text, C11R.varText, ht]
+    | android r => exact absurd hc (by simp [C12B.ExpOK])
+  simp only [Matcher.str, expandTop, expandPat, hroot, bind, Except.bind,
+    PM.expandChildren_of_nodes (pc := fun n => (C11R.pieceOf vs m.env n).text) m.pattern.nodes hnode,
+    pure, Except.pure, C11R.fillN_eq]
+
+/-- non-vacuity: `C12B.repMatcher` is what `Matcher("{l}a/{l}b/*.ftl", {"l": "l10n/"})` builds and `C12B.locMatcher` what
+    `Matcher("l10n/{locale}/x/{locale}.ftl", {"locale": "de"})` builds; both satisfy the hypotheses; the filled paths are
+    "l10n/a/l10n/b/c.d.ftl" (`*` = "c.d") and "l10n/de/x/de.ftl", and evaluation of the model agrees with the theorem -/
+example : matcherOf "{l}a/{l}b/*.ftl" [("l", "l10n/")] none = .ok C12B.repMatcher ∧
+    matcherOf "l10n/{locale}/x/{locale}.ftl" [("locale", "de")] none = .ok C12B.locMatcher ∧
+    ((∃ names, C12B.FillableB C12B.repVals C12B.repMatcher names []) ∧ C11R.Expandable C12B.repMatcher) ∧
+    ((∃ names, C12B.FillableB C12B.repVals C12B.locMatcher names []) ∧ C11R.Expandable C12B.locMatcher) ∧
+    [] ++ C11R.fillN C12B.repVals C12B.repMatcher.env C12B.repMatcher.pattern.nodes = T "l10n/a/l10n/b/c.d.ftl" ∧
+    [] ++ C11R.fillN C12B.repVals C12B.locMatcher.env C12B.locMatcher.pattern.nodes = T "l10n/de/x/de.ftl" ∧
+    matchOutcome "{l}a/{l}b/*.ftl" [("l", "l10n/")] none "l10n/a/l10n/b/c.d.ftl" =
+      .groups [(T "l", some (T "l10n/")), (T "s1", some (T "c.d"))] ∧
+    matchOutcome "l10n/{locale}/x/{locale}.ftl" [("locale", "de")] none "l10n/de/x/de.ftl" =
+      .groups [(localeName, some (T "de"))] ∧
+    matchOutcome "l10n/{locale}/x/{locale}.ftl" [] none "l10n/de/x/fr.ftl" = .noMatch :=
+  ⟨C12B.repMatcher_is, C12B.locMatcher_is, C12B.repMatcher_ok, C12B.locMatcher_ok, C12B.rep_fill, C12B.loc_fill,
+    by decide +kernel, by decide +kernel, by decide +kernel⟩
+
+/-! ### `mozpath.match` (round 4) -/
+
+/-- **What `mozpath.match` compiles.**  For EVERY pattern text, the regular expression `mozpath.match` caches is the
+    translation of the token list computed by the plain lexer `C12M.mozLex` (literal characters, `*`, `**/` after "/" or at
+    the start = `dirs`, a final `/**` = `below`, the pattern `**` alone = `all`), followed by the tail `(?:/.*)?$`.
+    (`finditer` of the tokenising regex is analysed position by position: `C12M.moz_hit`, `C12S.finditer_scan`.) -/
+theorem mozpath_regex_is_lexer (pat : Text) :
+    mozRegex pat = .ok (seqOf (C12M.mozItems (C12M.mozLex pat) ++ [Gen.Pat.mozpath_frag_tail])) :=
+  C12M.mozRegex_lex pat
+
+/-- **`mozpath.match` is sound and complete for the glob relation `C12M.TokM`** (an inductive relation that does not
+    mention regular expressions: a `*` is a run without "/", `dirs` is nothing or a non-empty text followed by "/", ...),
+    for patterns of any length and every newline-free path: it never raises, and it returns `True` exactly when the pattern
+    is empty or its token list matches the path or one of its ancestor directories (`path = pre` or `path = pre/rest`). -/
+theorem mozpath_match_sound_complete (path pat : Text) (hnl : 10 ∉ path) :
+    ∃ b, mozMatch path pat = .ok b ∧
+      (b = true ↔ pat = [] ∨ ∃ pre, C12M.TokM (C12M.mozLex pat) pre ∧ (path = pre ∨ ∃ rest, path = pre ++ 47 :: rest)) :=
+  C12M.mozMatch_iff path pat hnl
+
+/-- the empty pattern matches everything -/
+theorem mozpath_empty_pattern (path : Text) : mozMatch path [] = .ok true := rfl
+
+/-- **a pattern without wildcards matches exactly itself and everything below it** (`foo` matches `foo` and `foo/bar`,
+    nothing else), for every newline-free path -/
+theorem mozpath_literal (path lit : Text) (hnl : 10 ∉ path) (hstar : 42 ∉ lit) (hne : lit ≠ []) :
+    mozMatch path lit = .ok (decide (path = lit ∨ (lit ++ [47]) <+: path)) :=
+  C12M.moz_literal path lit hnl hstar hne
+
+/-- **`*` matches inside one path component only**: `A*B` (no further `*`) matches exactly the paths `A w B` where `w`
+    contains no "/" (and everything below such a path) -/
+theorem mozpath_star_one_component (path A B : Text) (hnl : 10 ∉ path) (hA : 42 ∉ A) (hB : 42 ∉ B) :
+    mozMatch path (A ++ 42 :: B) = .ok true ↔
+      ∃ w, 47 ∉ w ∧ (path = A ++ w ++ B ∨ ∃ rest, path = A ++ w ++ B ++ 47 :: rest) :=
+  C12M.moz_star path A B hnl hA hB
+
+/-- **`**` matches any number of path components, including none**: `A/**/B` matches exactly `A/B` and `A/w/B` for every
+    non-empty `w` (several directories when `w` contains "/"), and everything below such a path -/
+theorem mozpath_dstar_any_dirs (path A B : Text) (hnl : 10 ∉ path) (hA : 42 ∉ A) (hB : 42 ∉ B) :
+    mozMatch path (A ++ 47 :: 42 :: 42 :: 47 :: B) = .ok true ↔
+      ∃ d, (d = [] ∨ ∃ w, w ≠ [] ∧ d = w ++ [47]) ∧
+        (path = A ++ 47 :: d ++ B ∨ ∃ rest, path = A ++ 47 :: d ++ B ++ 47 :: rest) :=
+  C12M.moz_dirs path A B hnl hA hB
+
+/-- non-vacuity / the lexer on a typical pattern: "foo/**/b*r/**" -/
+example : C12M.mozLex (T "foo/**/b*r/**") =
+    [.chr 102, .chr 111, .chr 111, .chr 47, .dirs, .chr 98, .star, .chr 114, .below] := by decide
+
+/-- Trailing slash and normalisation, as the code has it: the pattern "foo/" does not match "foo" but matches "foo/" and
+    "foo//x"; the path "foo/" matches the pattern "foo"; a star does reach below its component through the ancestor rule
+    ("foo/*" matches "foo/a/b") but not inside the pattern ("foo/*.ftl" does not match "foo/a/b.ftl"). -/
+theorem mozpath_slash_witness :
+    C12M.mozOutcome "foo" "foo/" = some false ∧ C12M.mozOutcome "foo/" "foo/" = some true ∧
+    C12M.mozOutcome "foo//x" "foo/" = some true ∧ C12M.mozOutcome "foo/" "foo" = some true ∧
+    C12M.mozOutcome "foo/a/b" "foo/*" = some true ∧ C12M.mozOutcome "foo/a/b.ftl" "foo/*.ftl" = some false := by
+  decide +kernel
+
+/-- The hypothesis "newline-free path" is forced: `mozpath.match` anchors with `$`, which also matches before a final
+    newline: "foo\n" matches the pattern "foo". -/
+theorem mozpath_newline_witness : C12M.mozOutcome "foo\n" "foo" = some true := by decide +kernel
+
+/-- Two adjacent `**` are not two directory wildcards: the second is lexed as two single stars, so "**/**/b" needs at
+    least one directory ("b" alone does not match, "x/b" does; "**/b" matches "b"). -/
+theorem mozpath_adjacent_dstar_witness :
+    C12M.mozLex (T "**/**/b") = [.dirs, .star, .star, .chr 47, .chr 98] ∧
+    C12M.mozOutcome "b" "**/**/b" = some false ∧ C12M.mozOutcome "x/b" "**/**/b" = some true ∧
+    C12M.mozOutcome "b" "**/b" = some true := by decide +kernel
+
+/-! ### the pure helpers of mozpath.py (round 4; model `MP`, laws in `Proofs/C12MozPath.lean`, `C12MozNorm.lean`) -/
+
+/-- `mozpath.join` is associative: joining three parts can be bracketed either way (a later absolute part restarts the path) -/
+theorem mozpath_join_assoc (a b c : Text) : MP.join2 (MP.join2 a b) c = MP.join2 a (MP.join2 b c) :=
+  C12MP.join2_assoc a b c
+
+/-- `split` and `"/".join` are inverse: a path is its components joined again, and a non-empty list of separator-free
+    components is what its joined text splits into -/
+theorem mozpath_split_join (p : Text) (cs : List Text) :
+    MP.joinSlash (MP.split p) = p ∧ (cs ≠ [] → (∀ c ∈ cs, 47 ∉ c) → MP.split (MP.joinSlash cs) = cs) ∧
+    ∀ c ∈ MP.split p, 47 ∉ c :=
+  ⟨C12MP.joinSlash_split p, C12MP.split_joinSlash cs, C12MP.split_no_slash p⟩
+
+/-- **`relpath(join(base, q), base) = normpath(q)`** ("" when that is "."): for a relative `q` that never climbs above its
+    start (`C12MP.depthOK 0`: every ".." has a component to cancel), a base that is absolute or relative to the absolute
+    working directory, and a non-empty joined path -/
+theorem mozpath_relpath_join (cwd base q : Text) (hcwd : MP.startsSlash cwd = true) (hq : MP.startsSlash q = false)
+    (hne : MP.join2 base q ≠ []) (hclimb : C12MP.depthOK 0 (MP.split q) = true) :
+    MP.relpath cwd (MP.join2 base q) base = .ok (if MP.normpath q = MP.dot then [] else MP.normpath q) :=
+  C12MP.relpath_join cwd base q hcwd hq hne hclimb
+
+/-- the hypotheses of `mozpath_relpath_join` are forced: an empty joined path raises ValueError; a `q` that climbs out
+    of its base comes back as its normal form only as long as the working directory is deep enough ("../x" under "/w" does,
+    "../../x" under "/" comes back as "../x": `abspath` cannot climb above the root) -/
+theorem mozpath_relpath_witness :
+    C12MP.res (MP.relpath (T "/w") [] []) = .inl .valueError ∧
+    C12MP.res (MP.relpath (T "/w") (MP.join2 (T "a") (T "../x")) (T "a")) = .inr (T "../x") ∧
+    MP.normpath (T "../x") = T "../x" ∧
+    C12MP.res (MP.relpath (T "/") (MP.join2 (T "a") (T "../../x")) (T "a")) = .inr (T "../x") ∧
+    MP.normpath (T "../../x") = T "../../x" := by decide +kernel
+
+/-- **`basedir` returns one of the bases, a path-prefix of the path** (or the path itself), `None` only when no base
+    contains the path, and among several containing bases the deepest (longest) one -/
+theorem mozpath_basedir {path : Text} {bases : List Text} :
+    (∀ b, MP.basedir path bases = some b → b ∈ bases ∧ (b = path ∨ C12MP.Contains b path)) ∧
+    (MP.basedir path bases = none → path ∉ bases ∧ ∀ b ∈ bases, ¬ C12MP.Contains b path) ∧
+    (∀ b, MP.basedir path bases = some b → path ∉ bases → ∀ b' ∈ bases, C12MP.Contains b' path → b'.length ≤ b.length) :=
+  ⟨fun _ h => C12MP.basedir_sound h, C12MP.basedir_none, fun _ h hn => C12MP.basedir_deepest h hn⟩
+
+/-- the docstring example: `basedir('foo/bar/baz', ['foo', 'baz', 'foo/bar']) = 'foo/bar'`; a look-alike prefix
+    ("foo/ba") is not a base of "foo/bar" -/
+example : MP.basedir (T "foo/bar/baz") [T "foo", T "baz", T "foo/bar"] = some (T "foo/bar") ∧
+    MP.basedir (T "foo/bar") [T "foo/ba"] = none := by decide +kernel
+
+/-- **`commonprefix` is the longest common prefix** (computed through `min` and `max` only): a prefix of every path, and
+    every common prefix of all paths is a prefix of it -/
+theorem mozpath_commonprefix (ps : List Text) :
+    (∀ p ∈ ps, MP.commonprefix ps <+: p) ∧ (ps ≠ [] → ∀ q, (∀ p ∈ ps, q <+: p) → q <+: MP.commonprefix ps) :=
+  ⟨C12MP.commonprefix_prefix ps, fun hne q h => C12MP.commonprefix_greatest ps q hne h⟩
+
+/-- `dirname` / `basename` / `splitext` take a path apart without losing anything: head ++ basename = path where the head
+    ends with "/" (or is empty) and the base name has no "/"; `dirname` is a prefix of the path; root ++ ext = path and the
+    extension is empty or a "." followed by neither "." nor "/" -/
+theorem mozpath_parts (p : Text) :
+    p.take (MP.afterLast 47 p) ++ MP.basename p = p ∧ 47 ∉ MP.basename p ∧ MP.dirname p <+: p ∧
+    (MP.splitext p).1 ++ (MP.splitext p).2 = p ∧
+    ((MP.splitext p).2 = [] ∨ ∃ e, (MP.splitext p).2 = 46 :: e ∧ 46 ∉ e ∧ 47 ∉ e) :=
+  ⟨C12MP.head_basename p, C12MP.basename_no_slash p, C12MP.dirname_prefix p, C12MP.splitext_concat p, C12MP.splitext_ext p⟩
+
+/-- leading dots of a file name are not an extension: splitext("a/.b") = ("a/.b", ""), splitext("a/..b.c") = ("a/..b", ".c") -/
+example : MP.splitext (T "a/.b") = (T "a/.b", []) ∧ MP.splitext (T "a/..b.c") = (T "a/..b", T ".c") ∧
+    MP.normpath (T "a//./b/../c/") = T "a/c" ∧ MP.normpath (T "//x/..") = T "//" ∧ MP.normpath [] = T "." := by decide +kernel
 
 end C12
